@@ -138,6 +138,10 @@ def exec_reject(item):
     r = explore.Result()
     si = universe.seedinfo(item["seed"])
     lines = apply_mutation(si.lines, item["pos"], tuple(item["mut"])) if "text" not in item else item["text"]
+    if item.get("lead"):
+        # the same mutant with the lines in front of the first code line dropped: the offending token stands on line 1 of the file
+        k = next((i for i, l in enumerate(lines) if l.strip()), 0)
+        lines = lines[k:]
     d = drivers.scratch()
     bad, good = os.path.join(d, "bad.vhd"), os.path.join(d, "good.vhd")
     with open(bad, "w") as f:
@@ -183,8 +187,12 @@ def reject_items(seeds):
     out = []
     for sid in seeds:
         pos, muts = mutations(sid)
+        first = min((p[0] for p in pos), default=0)
+        blank_lead = all(not l.strip() for l in universe.seedinfo(sid).lines[:first])
         for m in muts:
             out.append({"id": f"{sid}#{m[0]}@{m[1]}", "seed": sid, "pos": pos, "mut": list(m)})
+            if first > 0 and blank_lead and pos[m[1]][0] == first:
+                out.append({"id": f"{sid}#{m[0]}@{m[1]}#line1", "seed": sid, "pos": pos, "mut": list(m), "lead": True})
     # a file that is certainly rejected, under every output option
     for txt_id, txt in (("parsefail", ["entity pf is", "  port (", "end architecture;;", "architecture of is begin"]), ("parsefail2", ["architecture a of b is", "begin", "  x <= ;;", "end process;"])):
         for k, opts in enumerate(OUTPUT_OPTIONS):
@@ -291,7 +299,7 @@ def main(tier):
         PROP, tier, "exploration", [m1, m2, m3, m4], t0,
         "(a) every live rule analysed, and fixed when it reports, in isolation on every seed (and under every K1 option value on its own fixture); (b) the whole --fix pipeline on every "
         "variant of the shared fix-run universe; (d) documented configuration features (user-defined severities at every level incl. per-file, file_rules, skip_phase, linesep, indent and pragma "
-        "overrides, global/group attributes) alone and in pairs, check and fix, on probe seeds; (c) every single-token mutation (delete, duplicate, swap, replace by ; ( ) end is begin) of small seeds through the real main() followed by a good file; "
+        "overrides, global/group attributes) alone and in pairs, check and fix, on probe seeds; (c) every single-token mutation (delete, duplicate, swap, replace by ; ( ) end is begin) of small seeds (mutants of the first code line also with that line as line 1 of the file) through the real main() followed by a good file; "
         "non-trivial = (rule, option) pairs that reported in (a), variants that fix changed in (b), mutants that were rejected in (c)",
         ["horizon: 120 s per seed in (a), 30 s per pipeline run, 6 s per mutant; exceeding it is reported as a hang", "mutants the classifier accepts impose no obligation in (c)"],
         extra_cov={"isolated_rule_applications": m1.transitions, "pipeline_runs": m2.evaluations, "mutants": m3.evaluations, "configuration_feature_runs": m4.evaluations, "mutants_rejected": m3.extra.get("rejected_mutants", 0),
